@@ -248,6 +248,9 @@ func csValue(rng *rand.Rand, t reflect.Type, fields []csField) reflect.Value {
 		switch f.wrap {
 		case "array":
 			n := rng.Intn(4)
+			if rng.Intn(4) == 0 {
+				n = []int{15, 16, 17, 40, 64}[rng.Intn(5)] // long enough for any bulk path
+			}
 			s := reflect.MakeSlice(fv.Type(), n, n)
 			for k := 0; k < n; k++ {
 				f.spec.gen(rng, s.Index(k), f.schema)
